@@ -40,6 +40,58 @@ def child_path():
     return str(p)
 
 
+CHILD_FILES = ("#!%s\nimport os,sys\n"
+               "for fd, p in ((1, sys.argv[1]), (2, sys.argv[2])):\n"
+               "    data = open(p, 'rb').read()\n"
+               "    while data:\n        n = os.write(fd, data[:65536]); data = data[n:]\n"
+               "os._exit(0)\n") % sys.executable
+
+
+def big_outputs(ctx):
+    """logs larger than any read buffer: a search text — in particular one that contains a line break — is found wherever
+    it lies, e.g. across a 64 KiB / 128 KiB boundary of the file, identically in memory and in log files"""
+    from lithium.interestingness import outputs
+    d = loaders.scratch()
+    child = d / "c19child-files"
+    if not child.exists():
+        child.write_text(CHILD_FILES)
+        child.chmod(child.stat().st_mode | stat.S_IXUSR)
+    log = b"".join(b"#%05d 0x%08x in function_%d (arg=%d) at file_%d.c:%d\n" % (i, i * 7919, i % 97, i, i % 13, i % 1000) for i in range(2600))
+    empty = d / "c19-empty.bin"
+    empty.write_bytes(b"")
+    big = d / "c19-big.bin"
+    big.write_bytes(log)
+    searches = []
+    for k in (1, 2):
+        cut = log.rfind(b"\n", 0, 65536 * k)          # the last line break before the k-th 64 KiB mark
+        for a, b in ((20, 20), (1, 1), (0, 5), (30, 0)):
+            searches.append(log[max(0, cut - a): cut + 1 + b])
+        searches.append(log[65536 * k - 10: 65536 * k + 10])
+    searches += [log[100:160], log[-40:], b"function_3 (arg=3)", b"no such text\nat all", log[70000:70030].replace(b"0", b"Z")]
+    for where in ("out", "err"):
+        for s in searches:
+            try:
+                txt = s.decode("ascii")
+            except UnicodeDecodeError:
+                continue
+            args = ["-s", txt, str(child)] + ([str(big), str(empty)] if where == "out" else [str(empty), str(big)])
+            want = s in log
+            for mode in ("mem", "file"):
+                prefix = None if mode == "mem" else str(d / "c19-bigout")
+                case = dict(test="outputs", big_log=len(log), stream=where, search=enc_bytes(s), mode=mode)
+                try:
+                    with contextlib.redirect_stdout(io.StringIO()):
+                        v = bool(outputs.interesting(args, prefix))
+                except Exception as exc:  # pylint: disable=broad-except
+                    ctx.fail("outputs-raises", f"outputs raised {type(exc).__name__}: {exc}", case)
+                    continue
+                ctx.evaluations += 1
+                ctx.bump("outputs-big")
+                if v != want:
+                    ctx.fail("outputs-verdict", f"outputs ({mode}) = {v}, expected {want}: a {len(log)}-byte log on std{where}, search text "
+                             f"{s!r} at offset {log.find(s)}", case)
+
+
 def outputs_cases(ctx, thorough):
     from lithium.interestingness import outputs
 
@@ -182,6 +234,7 @@ def repeat_cases(ctx, thorough):
 def run(ctx) -> int:
     proof = common.proof_stage(ctx.pid)
     outputs_cases(ctx, ctx.thorough)
+    big_outputs(ctx)
     diff_cases(ctx, ctx.thorough)
     repeat_cases(ctx, ctx.thorough)
     return common.decide(ctx, proof, RULE,
